@@ -220,6 +220,14 @@ func (run *checkRun) execute(verbose bool) int {
 			var fi *FuncInfo
 			closure := 0
 			fkey := j.key
+			// "unit~clauseA,clauseB": the named ensures clauses state another property's requirement (they are decided, and may
+			// carry that property's known findings, under that property's check); here the unit is verified without them
+			var notHere []string
+			if i := strings.Index(fkey, "~"); i >= 0 {
+				notHere = strings.Split(fkey[i+1:], ",")
+				fkey = fkey[:i]
+				j.key = fkey
+			}
 			if i := strings.Index(fkey, "#"); i >= 0 {
 				fmt.Sscan(fkey[i+1:], &closure)
 				fkey = fkey[:i]
@@ -249,7 +257,24 @@ func (run *checkRun) execute(verbose bool) int {
 			o.Safety = j.safety
 			o.Events = j.emitted
 			o.Closure = closure
-			addUnit(w.VerifyFunc(fi, c, o))
+			ur := w.VerifyFunc(fi, c, o)
+			if len(notHere) > 0 {
+				kept := ur.Obls[:0]
+				for _, ob := range ur.Obls {
+					drop := false
+					for _, cl := range notHere {
+						if strings.HasSuffix(ob.Name, "#ensures["+cl+"]") {
+							drop = true
+						}
+					}
+					if !drop {
+						kept = append(kept, ob)
+					}
+				}
+				ur.Obls = kept
+				ur.Notes = append(ur.Notes, "ensures clauses decided under another property's check and not counted here: "+strings.Join(notHere, ", "))
+			}
+			addUnit(ur)
 		}()
 	}
 	// zero-annotation bounds sweep
